@@ -1051,10 +1051,48 @@ func (s *Session) sendResp(ctx context.Context, id string, payload xml.TokenRead
 
 	select {
 	case rr := <-c:
-		return rr, nil
+		return &errCloser{TokenReadCloser: rr}, nil
 	case <-ctx.Done():
 		return nil, ctx.Err()
 	}
+}
+
+// errCloser is the response handed to the caller of SendIQ. It closes the
+// response as soon as reading from it fails and makes Close idempotent.
+//
+// Callers commonly iterate over the response with xmlstream.Iter, whose Close
+// drains the reader before closing it and returns early, without closing, if
+// draining fails. An error in the middle of the payload (for example a token
+// the stream reader rejects, or the end of the input) would then leave Serve
+// waiting forever for the response to be closed.
+type errCloser struct {
+	xmlstream.TokenReadCloser
+	err    error
+	closed bool
+}
+
+func (e *errCloser) Token() (xml.Token, error) {
+	if e.closed {
+		if e.err != nil {
+			return nil, e.err
+		}
+		return nil, io.EOF
+	}
+	tok, err := e.TokenReadCloser.Token()
+	if err != nil && err != io.EOF {
+		e.err = err
+		/* #nosec */
+		e.Close()
+	}
+	return tok, err
+}
+
+func (e *errCloser) Close() error {
+	if e.closed {
+		return nil
+	}
+	e.closed = true
+	return e.TokenReadCloser.Close()
 }
 
 // closeInputStream immediately marks the input stream as closed and cancels any
